@@ -124,7 +124,7 @@ SIZES = {  # per property: harness arguments per tier
             "thorough": dict(n01=5000, n10r=0, n10f=60, n10m=0, n09=0, ncor=100, kf=0)},
     "C10": {"quick": dict(n01=0, n10r=150, n10f=40, n10m=80, n09=0, ncor=0, kf=6, n10x=100),
             "thorough": dict(n01=0, n10r=1200, n10f=300, n10m=800, n09=0, ncor=0, kf=0, n10x=1000)},
-    "C09": {"quick": dict(n01=0, n10r=0, n10f=0, n10m=0, n09=900, ncor=0, kf=0),
+    "C09": {"quick": dict(n01=0, n10r=0, n10f=0, n10m=0, n09=1100, ncor=0, kf=0),
             "thorough": dict(n01=0, n10r=0, n10f=0, n10m=0, n09=8000, ncor=0, kf=0)},
 }
 
